@@ -188,6 +188,8 @@ pub struct Node<A> {
     pub next_serial: u64,
     /// Rejections observed on accept: error strings
     pub accept_errors: Vec<String>,
+    /// Every Incoming seen: (time, remote, remote_address_validated(), may_retry())
+    pub incomings: Vec<(Duration, SocketAddr, bool, bool)>,
 }
 
 #[derive(Debug, Clone, PartialEq, Eq)]
@@ -265,6 +267,7 @@ pub struct World<A: App> {
     pub make_app: Box<dyn FnMut(usize, ConnectionHandle) -> A + Send>,
     /// Blackhole: drop everything sent by these nodes
     pub blackhole: Vec<bool>,
+    pub blackhole_default: bool,
     /// Do not forward Drained to the endpoint and keep drained connections live (C20 part 5)
     pub hold_drained: bool,
     /// Consecutive timer firings at one instant for one connection: (t, node, ch, count)
@@ -302,6 +305,7 @@ impl<A: App> World<A> {
             ce_marks: Default::default(),
             make_app,
             blackhole: Vec::new(),
+            blackhole_default: false,
             hold_drained: false,
             timer_streak: (Duration::ZERO, 0, 0, 0),
             max_timer_streak: 0,
@@ -311,6 +315,15 @@ impl<A: App> World<A> {
 
     pub fn now(&self) -> Instant {
         self.base + self.t
+    }
+
+    /// Drop everything any present or future node emits (used when only direct endpoint calls
+    /// and injected datagrams matter)
+    pub fn blackhole_all_from_start(&mut self) {
+        self.blackhole_default = true;
+        for b in self.blackhole.iter_mut() {
+            *b = true;
+        }
     }
 
     pub fn add_node(
@@ -337,8 +350,9 @@ impl<A: App> World<A> {
             server_cfg_for_accept: None,
             next_serial: 0,
             accept_errors: Vec::new(),
+            incomings: Vec::new(),
         });
-        self.blackhole.push(false);
+        self.blackhole.push(self.blackhole_default);
         n
     }
 
@@ -568,6 +582,8 @@ impl<A: App> World<A> {
     fn handle_incoming(&mut self, node: usize, inc: Incoming) -> Option<ConnectionHandle> {
         let mut buf = Vec::new();
         let policy = self.nodes[node].policy;
+        let t = self.t;
+        self.nodes[node].incomings.push((t, inc.remote_address(), inc.remote_address_validated(), inc.may_retry()));
         match policy {
             AcceptPolicy::Hold => {
                 self.nodes[node].held.push(inc);
@@ -641,6 +657,12 @@ impl<A: App> World<A> {
         let now = self.now();
         let mut buf = Vec::new();
         let len = f.data.len();
+        // the delivery is logged before it is processed so that ledgers see bytes received
+        // before any response they provoke; the routing outcome is filled in afterwards
+        let pos = self.recs.len();
+        self.recs.push(Rec::Deliver {
+            t: self.t, node, idx: f.idx, src: f.src, len, routed: Routed::Nothing, injected: f.injected,
+        });
         let ev = self.nodes[node].ep.handle(now, f.src, None, f.ecn, BytesMut::from(&f.data[..]), &mut buf);
         let routed = match ev {
             Some(DatagramEvent::ConnectionEvent(ch, ev)) => {
@@ -649,16 +671,21 @@ impl<A: App> World<A> {
                 }
                 Routed::Conn(ch)
             }
-            Some(DatagramEvent::NewConnection(inc)) => Routed::New(self.handle_incoming(node, inc)),
+            Some(DatagramEvent::NewConnection(inc)) => {
+                if let Rec::Deliver { routed, .. } = &mut self.recs[pos] {
+                    *routed = Routed::New(None);
+                }
+                Routed::New(self.handle_incoming(node, inc))
+            }
             Some(DatagramEvent::Response(t)) => {
                 self.emit_transmit(node, None, None, &t, &buf, 0);
                 Routed::Response(t.size)
             }
             None => Routed::Nothing,
         };
-        self.recs.push(Rec::Deliver {
-            t: self.t, node, idx: f.idx, src: f.src, len, routed: routed.clone(), injected: f.injected,
-        });
+        if let Rec::Deliver { routed: r, .. } = &mut self.recs[pos] {
+            *r = routed.clone();
+        }
         match &routed {
             Routed::Conn(ch) | Routed::New(Some(ch)) => self.settle_conn(node, *ch),
             _ => {}
